@@ -184,20 +184,35 @@ def transposeT (order inv : Fin r → Fin r) (t : Tens r γ) : Tens r γ :=
 def squeezeT (a : Fin (r+1)) (t : Tens (r+1) γ) : Tens r γ :=
   ⟨fun i => t.shape (skipAt a i), fun idx => t.get (insAt a 0 idx)⟩
 
-/-- the fibre of `t` through `idx` along axis `a` -/
-def fibre (t : Tens r γ) (a : Fin r) (idx : Fin r → Nat) : Fin (t.shape a) → γ :=
-  fun j => t.get (upd idx a j.val)
-
 end Tens
+
+/-! Reductions along an axis are folds over `0 .. shape a - 1` indexed by `Nat` (not `Fin (shape a)`), so that an
+axis permutation, under which `shape a` changes only up to a propositional equality, rewrites cleanly.
+`sumRange_eq_vsum` / `argmaxUpTo_eq_vargmax` (`Proofs/MasksProof.lean`) identify them with the folds the point
+kernels use. -/
+
+/-- `f 0 + f 1 + … + f (n-1)`, left to right from `0` (same order as `vsum`) -/
+def sumRange {γ : Type} [Add γ] [OfNat γ 0] : Nat → (Nat → γ) → γ
+  | 0, _ => 0
+  | n+1, f => sumRange n f + f n
+
+/-- first index in `0 .. m` attaining the maximum of `f` (same scan as `vargmax`) -/
+def argmaxUpTo {γ : Type} [LT γ] [DecidableLT γ] : Nat → (Nat → γ) → Nat
+  | 0, _ => 0
+  | m+1, f => let b := argmaxUpTo m f; if f b < f (m+1) then m+1 else b
 
 section tensorMasks
 variable {α β : Type} [Add α] [Sub α] [Mul α] [Div α] [Neg α] [OfNat α 0] [OfNat α 1]
   [LT α] [DecidableLT α] [Transc α] [CxOps α β]
 variable {r : Nat}
 
+/-- sum of the fibre of `t` through `idx` along axis `a` -/
+def fibreSum {γ : Type} [Add γ] [OfNat γ 0] (t : Tens r γ) (a : Fin r) (idx : Fin r → Nat) : γ :=
+  sumRange (t.shape a) fun j => t.get (upd idx a j)
+
 /-- `x.sum(a, keepdims=True)` -/
 def sumKeep (t : Tens r α) (a : Fin r) : Tens r α :=
-  ⟨upd t.shape a 1, fun idx => vsum (t.fibre a idx)⟩
+  ⟨upd t.shape a 1, fun idx => fibreSum t a idx⟩
 
 /-- `abs_square(signal)` followed by the optional `sum(sensor_axis, keepdims=True)` -/
 def pooledPower (t : Tens r β) (se : Option (Fin r)) : Tens r α :=
@@ -208,14 +223,11 @@ def pooledPower (t : Tens r β) (se : Option (Fin r)) : Tens r α :=
 /-- `ideal_binary_mask(signal, source_axis, sensor_axis, keepdims=True)` -/
 def ibmT (t : Tens r β) (sa : Fin r) (se : Option (Fin r)) : Tens r α :=
   let p := pooledPower (α := α) t se
-  ⟨p.shape, fun idx =>
-    match p.shape sa with
-    | 0 => 0
-    | K+1 => if (vargmax fun k : Fin (K+1) => p.get (upd idx sa k.val)).val = idx sa then 1 else 0⟩
+  ⟨p.shape, fun idx => if argmaxUpTo (p.shape sa - 1) (fun k => p.get (upd idx sa k)) = idx sa then 1 else 0⟩
 
 /-- `x / (x.sum(source_axis, keepdims=True) + eps)` -/
 def ratioT (eps : α) (p : Tens r α) (sa : Fin r) : Tens r α :=
-  ⟨p.shape, fun idx => p.get idx / (vsum (p.fibre sa idx) + eps)⟩
+  ⟨p.shape, fun idx => p.get idx / (fibreSum p sa idx + eps)⟩
 
 /-- `wiener_like_mask(signal, source_axis, sensor_axis, eps, keepdims=True)` -/
 def wienerT (eps : α) (t : Tens r β) (sa : Fin r) (se : Option (Fin r)) : Tens r α :=
@@ -228,7 +240,7 @@ def irmT (eps : α) (t : Tens r β) (sa : Fin r) : Tens r α :=
 variable [Add β] [Div β] [OfNat β 0]
 
 /-- `np.sum(signal, source_axis, keepdims=True)` read at `idx` (broadcast along the source axis) -/
-def mixtureT (t : Tens r β) (sa : Fin r) (idx : Fin r → Nat) : β := vsum (t.fibre sa idx)
+def mixtureT (t : Tens r β) (sa : Fin r) (idx : Fin r → Nat) : β := fibreSum t sa idx
 
 def iamT (eps : α) (t : Tens r β) (sa : Fin r) : Tens r α :=
   ⟨t.shape, fun idx => cabs (α := α) (t.get idx) / (cabs (α := α) (mixtureT t sa idx) + eps)⟩
